@@ -309,6 +309,7 @@ func runAlg(r *prng, thorough bool) {
 				}
 			}
 		}
+		bigPointCases(a, newPRNG(pr.next()))
 		dkgCases(a, thorough)
 		if thorough {
 			for i := 0; i < 40; i++ {
@@ -471,6 +472,57 @@ func dealCase(a *api, p *prng, n, t, s int, thorough bool) {
 	groupCases(a, p, vec, n, t, shares, secret, gsubs)
 	// the DKG cross-check
 	crossCases(a, p, vec, n, t, s, shares, secret)
+}
+
+// bigPointCases: large point sets and large points, where only scalar arithmetic is needed.  The product of the points of a
+// set passes 2^63 from about 21 points on (20! < 2^63 < 21!) and, for points near 2^15 / 2^16, from five points on: any
+// machine-integer short cut in lagrangeCoefficient shows here.  Coefficients for {1..n}, top / bottom / random subsets;
+// reconstruction over complete and large subsets; one aggregation in the exponent over 22 keys.
+func rangeSet(lo, hi int64) []int64 {
+	var s []int64
+	for x := lo; x <= hi; x++ {
+		s = append(s, x)
+	}
+	return s
+}
+
+func bigPointCases(a *api, p *prng) {
+	for _, n := range []int{20, 21, 22, 25, 30, 40, 64} {
+		full := rangeSet(1, int64(n))
+		for _, i := range []int64{1, int64(n / 2), int64(n)} {
+			emitLag(a, i, full)
+		}
+		top := rangeSet(int64(n-17), int64(n))
+		emitLag(a, top[0], top)
+		emitLag(a, top[len(top)-1], shuffled(p, top))
+		bottom := rangeSet(1, 18)
+		emitLag(a, 18, bottom)
+		for k := 0; k < 2; k++ {
+			sub := randomSubset(p, n, n-1-p.intn(3))
+			emitLag(a, sub[p.intn(len(sub))], sub)
+		}
+	}
+	// large points: five of them already multiply to more than 2^63
+	for _, s := range [][]int64{rangeSet(32764, 32769), rangeSet(65530, 65535), {1, 255, 256, 32767, 32768, 65534, 65535},
+		{65535, 65534, 65533, 65532, 65531, 65530, 65529, 65528}} {
+		for _, i := range []int64{s[0], s[len(s)/2], s[len(s)-1]} {
+			emitLag(a, i, s)
+		}
+	}
+	// reconstruction over complete and large subsets of a dealt polynomial, t = 3
+	for _, n := range []int{21, 22, 25, 30} {
+		poly, shares, _ := deal(a, p, n, 3, 1)
+		vec := newVec(a, shares)
+		at0 := a.valueAt(poly, 0)
+		emit(genCase{"gen", a.name, n, 3, "random", zdecs(poly), vec, zdec(at0), zint(at0).Cmp(zint(poly[0])) == 0})
+		emitRec(a, vec, n, 3, shares, poly[0], rangeSet(1, int64(n)))
+		emitRec(a, vec, n, 3, shares, poly[0], rangeSet(int64(n-19), int64(n)))
+		emitRec(a, vec, n, 3, shares, poly[0], shuffled(p, randomSubset(p, n, n-1)))
+		if n == 22 {
+			// in the exponent: 22 public keys aggregate to the key of the secret
+			groupCases(a, p, vec, n, 3, shares, poly[0], [][]int64{rangeSet(1, 22), rangeSet(2, 22)})
+		}
+	}
 }
 
 func largeCase(a *api, p *prng, n, t int) {
